@@ -117,8 +117,13 @@ class Facts:
                 self.statics.append(s)
             for t in cr.traits:
                 self.traits[t["id"]] = t
+        ep = os.path.join(d, "corpus_build_error.txt")
+        self.corpus_build_error = open(ep).read() if os.path.exists(ep) else None
         mp = os.path.join(d, "corpus_meta.json")
         self.corpus_meta = json.load(open(mp)) if os.path.exists(mp) else {}
+        if self.corpus_build_error:
+            self.corpus_n_types = len(self.corpus_meta.get("types", []))
+            self.corpus_meta = {}   # no derived code to analyse: rule CB reports the build failure once
 
     def fn(self, fid):
         return self.fns.get(fid)
